@@ -7,12 +7,37 @@ package collections
 //   vdom[k]  the key is tracked;  vtag/vval[k] the stored interface value;  vexp[k] its expiry second;  vlen = |vdom|
 
 //@ type TTLMap
-//@   immutable capacity mutex
+//@   immutable capacity mutex OnExpire
+//@   guarded_by mutex: elements expiryTimes
 //@   ghost vdom map[string]bool
 //@   ghost vtag map[string]int
 //@   ghost vval map[string]int
 //@   ghost vexp map[string]int
 //@   ghost vlen int
+
+//@ type mapElement
+//@   immutable key heapEl
+//@   guarded_by TTLMap.mutex: value
+
+//@ type PriorityQueue
+//@   extsync
+//@   mutators Push Pop Update Remove
+
+//@ type PQItem
+//@   extsync
+
+//@ type pqImpl
+//@   extsync
+//@   mutators Swap Push Pop
+
+//@ func (*TTLMap).RemoveExpired
+//@   props C09 C14
+//@   holds m.mutex
+//@   modifies everything
+//@ func (*TTLMap).RemoveLastUsed
+//@   props C09 C14
+//@   holds m.mutex
+//@   modifies everything
 
 //@ pred nowsec() = lastclock / 1000000000
 //@ pred live(m *TTLMap, k string) = m.vdom[k] && m.vexp[k] > lastclock / 1000000000
